@@ -116,6 +116,23 @@ def always_exits(stmts) -> bool:
     return False
 
 
+class _FoldOffsets(ast.NodeTransformer):
+    """(x + a) - b and (x + a) + b with integer literals a, b: x + (a -/+ b), and x when the offsets cancel."""
+    def visit_BinOp(self, n):
+        n = self.generic_visit(n)
+        def lit(e):
+            return e.value if isinstance(e, ast.Constant) and isinstance(e.value, int) and not isinstance(e.value, bool) else None
+        if isinstance(n.op, (ast.Add, ast.Sub)) and lit(n.right) is not None and isinstance(n.left, ast.BinOp) \
+                and isinstance(n.left.op, (ast.Add, ast.Sub)) and lit(n.left.right) is not None:
+            a = lit(n.left.right) * (1 if isinstance(n.left.op, ast.Add) else -1)
+            b = lit(n.right) * (1 if isinstance(n.op, ast.Add) else -1)
+            tot = a + b
+            if tot == 0:
+                return n.left.left
+            return ast.copy_location(ast.BinOp(n.left.left, ast.Add() if tot > 0 else ast.Sub(), ast.Constant(abs(tot))), n)
+        return n
+
+
 class _Renamer(ast.NodeTransformer):
     def __init__(self, mapping: Dict[str, ast.expr]):
         self.mapping = mapping
@@ -396,6 +413,11 @@ class Normalizer:
                                 del lst[i]
                                 self.log.append(f"{f.qualname}:{b.lineno} <- single-use temporary `{t}` folded into the raise")
                                 continue
+                            if isinstance(b, ast.If) and isinstance(b.test, ast.Name) and b.test.id == t and not any(isinstance(x, ast.Call) for x in ast.walk(a.value)):
+                                b.test = a.value
+                                del lst[i]
+                                self.log.append(f"{f.qualname}:{b.lineno} <- single-use temporary `{t}` folded into the test")
+                                continue
                             if isinstance(b, ast.Return) and isinstance(b.value, ast.Name) and b.value.id == t and lst is f.node.body and body == [a, b]:
                                 b.value = a.value
                                 del lst[i]
@@ -610,6 +632,414 @@ class Normalizer:
                     if changed:
                         lst[:] = out
 
+    def _canonical_literal_loops(self):
+        """`for (a, b) in ((x1, y1), (x2, y2)): BODY` over a short literal of names and constants is BODY[x1, y1]; BODY[x2, y2]:
+        the loop is written out.  Only when BODY has no break/continue of its own, assigns neither the targets nor a name the
+        literal reads, and the targets are not read after the loop."""
+        def simple(e):
+            return isinstance(e, (ast.Name, ast.Constant)) or (isinstance(e, ast.Attribute) and simple(e.value)) or \
+                (isinstance(e, ast.UnaryOp) and isinstance(e.operand, ast.Constant))
+        for f in self.prog.functions.values():
+            for n in ast.walk(f.node):
+                for fld in ("body", "orelse", "finalbody"):
+                    lst = getattr(n, fld, None)
+                    if not (isinstance(lst, list) and lst and isinstance(lst[0], ast.stmt)):
+                        continue
+                    out, changed = [], False
+                    for st in lst:
+                        rows = None
+                        if isinstance(st, ast.For) and not st.orelse and isinstance(st.iter, (ast.Tuple, ast.List)) and 1 <= len(st.iter.elts) <= 4:
+                            tg = st.target
+                            names = [tg.id] if isinstance(tg, ast.Name) else [x.id for x in tg.elts] if isinstance(tg, (ast.Tuple, ast.List)) and \
+                                all(isinstance(x, ast.Name) for x in tg.elts) else None
+                            if names is not None:
+                                rows = []
+                                for e in st.iter.elts:
+                                    if isinstance(tg, ast.Name):
+                                        rows.append([e] if simple(e) else None)
+                                    else:
+                                        rows.append(list(e.elts) if isinstance(e, (ast.Tuple, ast.List)) and len(e.elts) == len(names) and all(simple(x) for x in e.elts) else None)
+                                if any(r is None for r in rows):
+                                    rows = None
+                        if rows is not None:
+                            body_nodes = [x for b_ in st.body for x in ast.walk(b_)]
+                            jumps = any(isinstance(x, (ast.Break, ast.Continue)) for x in body_nodes)
+                            nested = any(isinstance(x, (ast.FunctionDef, ast.Lambda, ast.ClassDef)) for x in body_nodes)
+                            stores = {x.id for x in body_nodes if isinstance(x, ast.Name) and not isinstance(x.ctx, ast.Load)}
+                            reads = {x.id for r in rows for e in r for x in ast.walk(e) if isinstance(x, ast.Name)}
+                            if lst is f.node.body:
+                                rest = lst[lst.index(st) + 1:]
+                                later = any(_read_before_rebound(rest, v) for v in names)
+                            else:
+                                later = {x.id for x in ast.walk(f.node) if isinstance(x, ast.Name) and isinstance(x.ctx, ast.Load) and x.id in names
+                                         and not any(x is y for y in body_nodes)}
+                            if jumps or nested or stores & (set(names) | reads) or later:
+                                rows = None
+                        if rows is None:
+                            out.append(st)
+                            continue
+                        for r in rows:
+                            for b_ in st.body:
+                                c = _Renamer(dict(zip(names, r))).visit(copy.deepcopy(b_))
+                                out.append(ast.fix_missing_locations(c))
+                        changed = True
+                        self.log.append(f"{f.qualname}:{st.lineno} <- loop over a literal written out")
+                    if changed:
+                        lst[:] = out
+
+    def _canonical_enumerated_slices(self):
+        """`for (i, x) in enumerate(A[lo:hi]): BODY` with constant lo >= 0 (or none) and constant hi < 0 (or none) is
+        `for i in range(len(A) - lo - |hi|): BODY[x := A[i + lo]]` (range() clamps a negative count just as the slice does).  Only for a
+        plain name A that BODY does not rebind, targets that BODY does not assign and that are not read after the loop."""
+        for f in self.prog.functions.values():
+            for st in [n for n in ast.walk(f.node) if isinstance(n, ast.For)]:
+                it, tg = st.iter, st.target
+                if not (isinstance(it, ast.Call) and isinstance(it.func, ast.Name) and it.func.id == "enumerate" and len(it.args) == 1 and not it.keywords
+                        and isinstance(tg, (ast.Tuple, ast.List)) and len(tg.elts) == 2 and all(isinstance(e, ast.Name) for e in tg.elts) and not st.orelse):
+                    continue
+                a = it.args[0]
+                if not (isinstance(a, ast.Subscript) and isinstance(a.value, ast.Name) and isinstance(a.slice, ast.Slice) and a.slice.step is None):
+                    continue
+
+                def const(e):
+                    if e is None:
+                        return 0
+                    if isinstance(e, ast.Constant) and isinstance(e.value, int) and not isinstance(e.value, bool):
+                        return e.value
+                    if isinstance(e, ast.UnaryOp) and isinstance(e.op, ast.USub) and isinstance(e.operand, ast.Constant) and isinstance(e.operand.value, int):
+                        return -e.operand.value
+                    return None
+                lo, hi = const(a.slice.lower), const(a.slice.upper)
+                if lo is None or hi is None or lo < 0 or hi > 0:
+                    continue
+                iname, xname, aname = tg.elts[0].id, tg.elts[1].id, a.value.id
+                body_nodes = [x for b_ in st.body for x in ast.walk(b_)]
+                stores = {x.id for x in body_nodes if isinstance(x, ast.Name) and not isinstance(x.ctx, ast.Load)}
+                nested = any(isinstance(x, (ast.FunctionDef, ast.Lambda, ast.ClassDef)) for x in body_nodes)
+                if st in f.node.body:
+                    rest = f.node.body[f.node.body.index(st) + 1:]
+                    later = any(_read_before_rebound(rest, v) for v in (iname, xname))
+                else:
+                    later = any(isinstance(x, ast.Name) and isinstance(x.ctx, ast.Load) and x.id in (iname, xname) and not any(x is y for y in body_nodes)
+                                for x in ast.walk(f.node))
+                if stores & {iname, xname, aname} or nested or later:
+                    continue
+                idx = ast.Name(iname, ast.Load()) if lo == 0 else ast.BinOp(ast.Name(iname, ast.Load()), ast.Add(), ast.Constant(lo))
+                elem = ast.Subscript(value=ast.Name(aname, ast.Load()), slice=idx, ctx=ast.Load())
+                st.body = [ast.fix_missing_locations(_Renamer({xname: elem}).visit(b_)) for b_ in st.body]
+                n_ = ast.Call(ast.Name("len", ast.Load()), [ast.Name(aname, ast.Load())], [])
+                if lo - hi:
+                    n_ = ast.BinOp(n_, ast.Sub(), ast.Constant(lo - hi))
+                st.iter = ast.copy_location(ast.Call(ast.Name("range", ast.Load()), [n_], []), it)
+                st.target = ast.copy_location(ast.Name(iname, ast.Store()), tg)
+                ast.fix_missing_locations(st)
+                self.log.append(f"{f.qualname}:{st.lineno} <- enumerate over a slice written as a counting loop")
+
+    def _canonical_conditional_stores(self):
+        """`x[i] = A if c else B` is `if c: x[i] = A else: x[i] = B` (the target is evaluated after the value either way), and two
+        adjacent `if`s on the same call-free test whose first one cannot change the test are one `if`."""
+        for f in self.prog.functions.values():
+            for n in ast.walk(f.node):
+                for fld in ("body", "orelse", "finalbody"):
+                    lst = getattr(n, fld, None)
+                    if not (isinstance(lst, list) and lst and isinstance(lst[0], ast.stmt)):
+                        continue
+                    for i, st in enumerate(lst):
+                        if isinstance(st, ast.Assign) and len(st.targets) == 1 and isinstance(st.targets[0], ast.Subscript) and isinstance(st.value, ast.IfExp):
+                            v = st.value
+                            mk = lambda val: ast.copy_location(ast.Assign(targets=[copy.deepcopy(st.targets[0])], value=val), st)
+                            lst[i] = ast.fix_missing_locations(ast.copy_location(ast.If(test=v.test, body=[mk(v.body)], orelse=[mk(v.orelse)]), st))
+                            self.log.append(f"{f.qualname}:{st.lineno} <- conditional store written as an if")
+                    i = 0
+                    while i + 1 < len(lst):
+                        a, b = lst[i], lst[i + 1]
+                        if isinstance(a, ast.If) and isinstance(b, ast.If) and a.orelse and b.orelse and ast.dump(a.test) == ast.dump(b.test) \
+                                and all(isinstance(x, PURE_NODES) and not isinstance(x, ast.Call) for x in ast.walk(a.test)):
+                            read = {x.id for x in ast.walk(a.test) if isinstance(x, ast.Name)}
+                            wrote = set()
+                            for x in [y for blk in (a.body, a.orelse) for s_ in blk for y in ast.walk(s_)]:
+                                if isinstance(x, ast.Name) and not isinstance(x.ctx, ast.Load):
+                                    wrote.add(x.id)
+                                elif isinstance(x, (ast.Subscript, ast.Attribute)) and not isinstance(x.ctx, ast.Load):
+                                    wrote.add(_root(x))
+                                elif isinstance(x, ast.Call):
+                                    wrote.add("*")
+                            if not (wrote & read) and "*" not in wrote and "" not in wrote and None not in wrote:
+                                a.body = a.body + b.body
+                                a.orelse = a.orelse + b.orelse
+                                del lst[i + 1]
+                                self.log.append(f"{f.qualname}:{a.lineno} <- adjacent ifs on one test merged")
+                                continue
+                        i += 1
+
+    def _canonical_star_args(self):
+        """`t = (a, b, c)` bound once to a literal of names / constants / attribute paths and only ever read as `*t` in calls later in
+        the same block (nested statements included), with none of a, b, c rebound in between, is the arguments written out."""
+        def simple(e):
+            return isinstance(e, (ast.Name, ast.Constant)) or (isinstance(e, ast.Attribute) and simple(e.value))
+        for f in self.prog.functions.values():
+            for n in ast.walk(f.node):
+                for fld in ("body", "orelse", "finalbody"):
+                    lst = getattr(n, fld, None)
+                    if not (isinstance(lst, list) and lst and isinstance(lst[0], ast.stmt)):
+                        continue
+                    i = 0
+                    while i < len(lst):
+                        st = lst[i]
+                        i += 1
+                        if not (isinstance(st, ast.Assign) and len(st.targets) == 1 and isinstance(st.targets[0], ast.Name)
+                                and isinstance(st.value, (ast.Tuple, ast.List)) and st.value.elts and all(simple(e) for e in st.value.elts)):
+                            continue
+                        t = st.targets[0].id
+                        occ = [x for x in ast.walk(f.node) if isinstance(x, ast.Name) and x.id == t]
+                        if sum(1 for x in occ if not isinstance(x.ctx, ast.Load)) != 1:
+                            continue
+                        rest = lst[i:]
+                        rest_nodes = [x for s_ in rest for x in ast.walk(s_)]
+                        starred = [x for x in rest_nodes if isinstance(x, ast.Starred) and isinstance(x.value, ast.Name) and x.value.id == t]
+                        loads = [x for x in occ if isinstance(x.ctx, ast.Load)]
+                        if not starred or len(starred) != len(loads) or not all(any(x.value is l for x in starred) for l in loads):
+                            continue
+                        calls = [c for c in rest_nodes if isinstance(c, ast.Call) and any(a in starred for a in c.args)]
+                        if sum(sum(1 for a in c.args if a in starred) for c in calls) != len(starred):
+                            continue            # a starred use outside a call's positional arguments ([*t], print(*t, sep=..) is fine, f(x=[*t]) is not)
+                        elems = {x.id for e in st.value.elts for x in ast.walk(e) if isinstance(x, ast.Name)}
+                        def stores_elem(node):
+                            return any(isinstance(x, ast.Name) and not isinstance(x.ctx, ast.Load) and x.id in elems for x in ast.walk(node))
+                        dirty = bad = False
+                        for s_ in rest:
+                            uses_here = any(any(x is y for y in starred) for x in ast.walk(s_))
+                            if uses_here and (dirty or (isinstance(s_, (ast.For, ast.While, ast.If, ast.With, ast.Try)) and stores_elem(s_))):
+                                bad = True
+                            if stores_elem(s_):
+                                dirty = True
+                        in_loop = any(isinstance(p_, (ast.For, ast.While)) and any(x is st for x in ast.walk(p_)) for p_ in ast.walk(f.node))
+                        if bad or any(isinstance(x, (ast.FunctionDef, ast.Lambda)) for x in rest_nodes):
+                            continue
+                        for c in calls:
+                            new_args = []
+                            for a in c.args:
+                                if a in starred:
+                                    new_args.extend(copy.deepcopy(e) for e in st.value.elts)
+                                else:
+                                    new_args.append(a)
+                            c.args = new_args
+                            ast.fix_missing_locations(c)
+                        i -= 1
+                        del lst[i]
+                        if not lst:
+                            lst.append(ast.copy_location(ast.Pass(), st))
+                        self.log.append(f"{f.qualname}:{st.lineno} <- *{t} written out at {len(starred)} call(s)")
+
+    def _canonical_maps(self):
+        """`map(f, A)` is `(f(x) for x in A)`; `map(f, A, itertools.repeat(c))` is `(f(x, c) for x in A)` for a constant / name c;
+        `map(lambda p: E, A)` is `(E for p in A)`.  Both are lazy and visit A once, in order."""
+        for f in self.prog.functions.values():
+            mod_names = set()
+            counter = [0]
+
+            class X(ast.NodeTransformer):
+                def visit_Call(self_, n):
+                    n = self_.generic_visit(n)
+                    if not (isinstance(n.func, ast.Name) and n.func.id == "map" and len(n.args) >= 2 and not n.keywords
+                            and not any(isinstance(a, ast.Starred) for a in n.args)):
+                        return n
+                    fn, seqs = n.args[0], n.args[1:]
+
+                    def repeated(e):
+                        if isinstance(e, ast.Call) and not e.keywords and len(e.args) == 1 and \
+                                ((isinstance(e.func, ast.Attribute) and e.func.attr == "repeat" and isinstance(e.func.value, ast.Name) and e.func.value.id == "itertools")
+                                 or (isinstance(e.func, ast.Name) and e.func.id == "repeat")) \
+                                and isinstance(e.args[0], (ast.Name, ast.Constant, ast.Attribute)):
+                            return e.args[0]
+                        return None
+                    real = [a for a in seqs if repeated(a) is None]
+                    if len(real) != 1 or real[0] is not seqs[0]:
+                        return n
+                    if isinstance(fn, ast.Lambda):
+                        a_ = fn.args
+                        if len(seqs) != 1 or len(a_.args) != 1 or a_.vararg or a_.kwarg or a_.kwonlyargs or a_.defaults or a_.posonlyargs \
+                                or any(isinstance(x, (ast.Lambda, ast.ListComp, ast.GeneratorExp, ast.SetComp, ast.DictComp)) for x in ast.walk(fn.body)):
+                            return n
+                        var, elt = a_.args[0].arg, fn.body
+                    elif isinstance(fn, (ast.Name, ast.Attribute)):
+                        counter[0] += 1
+                        var = f"_m{counter[0]}_{n.lineno}"
+                        elt = ast.Call(func=fn, args=[ast.Name(var, ast.Load())] + [repeated(a) for a in seqs[1:]], keywords=[])
+                    else:
+                        return n
+                    g = ast.GeneratorExp(elt=elt, generators=[ast.comprehension(target=ast.Name(var, ast.Store()), iter=real[0], ifs=[], is_async=0)])
+                    self.log.append(f"{f.qualname}:{n.lineno} <- map() written as a generator expression")
+                    return ast.fix_missing_locations(ast.copy_location(g, n))
+            X().visit(f.node)
+
+    def _canonical_running_totals(self):
+        """`out = []; acc = 0; for x in XS: acc = acc + x; out.append(acc)` is `out = list(itertools.accumulate(XS))` (left-to-right
+        partial sums starting from 0 + x_0 = x_0) when the running scalar is not read after the loop."""
+        for f in self.prog.functions.values():
+            for n in ast.walk(f.node):
+                for fld in ("body", "orelse", "finalbody"):
+                    lst = getattr(n, fld, None)
+                    if not (isinstance(lst, list) and lst and isinstance(lst[0], ast.stmt)):
+                        continue
+                    for i, st in enumerate(lst):
+                        if not (isinstance(st, ast.For) and not st.orelse and isinstance(st.target, ast.Name) and len(st.body) == 2 and i >= 2):
+                            continue
+                        x = st.target.id
+                        upd, app = st.body
+                        acc = None
+                        if isinstance(upd, ast.AugAssign) and isinstance(upd.op, ast.Add) and isinstance(upd.target, ast.Name) \
+                                and isinstance(upd.value, ast.Name) and upd.value.id == x:
+                            acc = upd.target.id
+                        elif isinstance(upd, ast.Assign) and len(upd.targets) == 1 and isinstance(upd.targets[0], ast.Name) and isinstance(upd.value, ast.BinOp) \
+                                and isinstance(upd.value.op, ast.Add) and isinstance(upd.value.left, ast.Name) and upd.value.left.id == upd.targets[0].id \
+                                and isinstance(upd.value.right, ast.Name) and upd.value.right.id == x:
+                            acc = upd.targets[0].id
+                        if acc is None or acc == x:
+                            continue
+                        if not (isinstance(app, ast.Expr) and isinstance(app.value, ast.Call) and isinstance(app.value.func, ast.Attribute)
+                                and app.value.func.attr == "append" and isinstance(app.value.func.value, ast.Name) and len(app.value.args) == 1
+                                and not app.value.keywords and isinstance(app.value.args[0], ast.Name) and app.value.args[0].id == acc):
+                            continue
+                        out = app.value.func.value.id
+                        inits = lst[i - 2:i]
+
+                        def is_init(s_, name, pred):
+                            return isinstance(s_, ast.Assign) and len(s_.targets) == 1 and isinstance(s_.targets[0], ast.Name) and s_.targets[0].id == name and pred(s_.value)
+                        empty = lambda v: isinstance(v, ast.List) and not v.elts
+                        zero = lambda v: isinstance(v, ast.Constant) and v.value == 0 and not isinstance(v.value, (bool, float))
+                        if not ((is_init(inits[0], out, empty) and is_init(inits[1], acc, zero)) or (is_init(inits[0], acc, zero) and is_init(inits[1], out, empty))):
+                            continue
+                        if out in (x, acc) or any(isinstance(y, ast.Name) and y.id in (out, acc, x) for y in ast.walk(st.iter)):
+                            continue
+                        rest = lst[i + 1:]
+                        if lst is not f.node.body or _read_before_rebound(rest, acc) or _read_before_rebound(rest, x):
+                            continue
+                        call = ast.Call(ast.Name("list", ast.Load()), [ast.Call(ast.Attribute(ast.Name("itertools", ast.Load()), "accumulate", ast.Load()), [st.iter], [])], [])
+                        new = ast.fix_missing_locations(ast.copy_location(ast.Assign([ast.Name(out, ast.Store())], call), inits[0]))
+                        lst[i - 2:i + 1] = [new]
+                        f.module.imports.setdefault("itertools", "itertools")
+                        self.log.append(f"{f.qualname}:{st.lineno} <- running-total loop written as itertools.accumulate")
+                        break
+
+    def _canonical_asserts(self):
+        """`if __debug__ and not C: raise AssertionError(msg)` (also nested: `if __debug__:` around `if not C: raise ...`) is `assert C, msg`."""
+        def as_assert(st):
+            if not (isinstance(st, ast.If) and not st.orelse and len(st.body) == 1):
+                return None
+            inner = st.body[0]
+            test = st.test
+            if isinstance(test, ast.Name) and test.id == "__debug__" and isinstance(inner, ast.If) and not inner.orelse and len(inner.body) == 1:
+                test, inner = ast.BoolOp(ast.And(), [test, inner.test]), inner.body[0]
+            if not (isinstance(test, ast.BoolOp) and isinstance(test.op, ast.And) and len(test.values) >= 2 and isinstance(test.values[0], ast.Name)
+                    and test.values[0].id == "__debug__" and isinstance(inner, ast.Raise) and inner.cause is None and inner.exc is not None):
+                return None
+            exc = inner.exc
+            if isinstance(exc, ast.Name) and exc.id == "AssertionError":
+                msg = None
+            elif isinstance(exc, ast.Call) and isinstance(exc.func, ast.Name) and exc.func.id == "AssertionError" and len(exc.args) <= 1 and not exc.keywords:
+                msg = exc.args[0] if exc.args else None
+            else:
+                return None
+            rest = test.values[1] if len(test.values) == 2 else ast.BoolOp(ast.And(), test.values[1:])
+            cond = rest.operand if isinstance(rest, ast.UnaryOp) and isinstance(rest.op, ast.Not) else ast.UnaryOp(ast.Not(), rest)
+            return ast.fix_missing_locations(ast.copy_location(ast.Assert(test=cond, msg=msg), st))
+        for f in self.prog.functions.values():
+            for n in ast.walk(f.node):
+                for fld in ("body", "orelse", "finalbody"):
+                    lst = getattr(n, fld, None)
+                    if not (isinstance(lst, list) and lst and isinstance(lst[0], ast.stmt)):
+                        continue
+                    for i, st in enumerate(lst):
+                        a = as_assert(st)
+                        if a is not None:
+                            lst[i] = a
+                            self.log.append(f"{f.qualname}:{st.lineno} <- `if __debug__ and not ...: raise AssertionError` written as an assert")
+
+    def _canonical_local_lambdas(self):
+        """`h = lambda a, b: E` bound once to a local that is only ever called positionally (`h(x, y)`) is E with the arguments
+        written in: `E[a := x, b := y]`.  Only for simple arguments (names, constants, attribute paths) or parameters used once,
+        and when nothing E reads is rebound after the lambda is made."""
+        def simple(e):
+            return isinstance(e, (ast.Name, ast.Constant)) or (isinstance(e, ast.Attribute) and simple(e.value))
+        for f in self.prog.functions.values():
+            for n in ast.walk(f.node):
+                for fld in ("body", "orelse", "finalbody"):
+                    lst = getattr(n, fld, None)
+                    if not (isinstance(lst, list) and lst and isinstance(lst[0], ast.stmt)):
+                        continue
+                    i = 0
+                    while i < len(lst):
+                        st = lst[i]
+                        i += 1
+                        if not (isinstance(st, ast.Assign) and len(st.targets) == 1 and isinstance(st.targets[0], ast.Name) and isinstance(st.value, ast.Lambda)):
+                            continue
+                        lam, h = st.value, st.targets[0].id
+                        a_ = lam.args
+                        if a_.vararg or a_.kwarg or a_.kwonlyargs or a_.defaults or a_.posonlyargs:
+                            continue
+                        params = [x.arg for x in a_.args]
+                        if any(isinstance(x, (ast.Lambda, ast.ListComp, ast.GeneratorExp, ast.SetComp, ast.DictComp, ast.NamedExpr)) for x in ast.walk(lam.body)):
+                            continue
+                        occ = [x for x in ast.walk(f.node) if isinstance(x, ast.Name) and x.id == h]
+                        if sum(1 for x in occ if not isinstance(x.ctx, ast.Load)) != 1:
+                            continue
+                        loads = [x for x in occ if isinstance(x.ctx, ast.Load)]
+                        rest_nodes = [x for s_ in lst[i:] for x in ast.walk(s_)]
+                        calls = [c for c in rest_nodes if isinstance(c, ast.Call) and any(c.func is l for l in loads)]
+                        if not loads or len(calls) != len(loads) or any(c.keywords or len(c.args) != len(params) or any(isinstance(x, ast.Starred) for x in c.args) for c in calls):
+                            continue
+                        uses = {p_: sum(1 for x in ast.walk(lam.body) if isinstance(x, ast.Name) and x.id == p_) for p_ in params}
+                        if any(not simple(a) and uses[p_] != 1 for c in calls for p_, a in zip(params, c.args)):
+                            continue
+                        free = {x.id for x in ast.walk(lam.body) if isinstance(x, ast.Name)} - set(params)
+                        if any(isinstance(x, ast.Name) and not isinstance(x.ctx, ast.Load) and x.id in free for x in rest_nodes) or \
+                                any(isinstance(x, (ast.FunctionDef, ast.Lambda)) for x in rest_nodes):
+                            continue
+                        repl = {id(c): ast.fix_missing_locations(ast.copy_location(_Renamer(dict(zip(params, c.args))).visit(copy.deepcopy(lam.body)), c)) for c in calls}
+
+                        class X(ast.NodeTransformer):
+                            def visit_Call(self_, c):
+                                if id(c) in repl:
+                                    return repl[id(c)]
+                                return self_.generic_visit(c)
+                        for k in range(i, len(lst)):
+                            lst[k] = X().visit(lst[k])
+                        i -= 1
+                        del lst[i]
+                        self.log.append(f"{f.qualname}:{st.lineno} <- local lambda `{h}` written out at {len(calls)} call(s)")
+
+    def _canonical_enumerate_start(self):
+        """`for (p, x) in enumerate(XS, start=c)` (or `enumerate(XS, c)`) with a constant c is `for (p, x) in enumerate(XS)` with every
+        read of p in the body written `p + c`."""
+        for f in self.prog.functions.values():
+            for st in [n for n in ast.walk(f.node) if isinstance(n, ast.For)]:
+                it, tg = st.iter, st.target
+                if not (isinstance(it, ast.Call) and isinstance(it.func, ast.Name) and it.func.id == "enumerate" and isinstance(tg, (ast.Tuple, ast.List))
+                        and len(tg.elts) == 2 and isinstance(tg.elts[0], ast.Name)):
+                    continue
+                start = None
+                if len(it.args) == 2 and not it.keywords:
+                    start = it.args[1]
+                elif len(it.args) == 1 and len(it.keywords) == 1 and it.keywords[0].arg == "start":
+                    start = it.keywords[0].value
+                if not (isinstance(start, ast.Constant) and isinstance(start.value, int) and not isinstance(start.value, bool)):
+                    continue
+                pname = tg.elts[0].id
+                body_nodes = [x for b_ in st.body + st.orelse for x in ast.walk(b_)]
+                if any(isinstance(x, ast.Name) and x.id == pname and not isinstance(x.ctx, ast.Load) for x in body_nodes) or \
+                        any(isinstance(x, (ast.FunctionDef, ast.Lambda)) for x in body_nodes):
+                    continue
+                outside = [x for x in ast.walk(f.node) if isinstance(x, ast.Name) and x.id == pname and isinstance(x.ctx, ast.Load) and not any(x is y for y in body_nodes)]
+                if outside:
+                    continue
+                if start.value != 0:
+                    shifted = ast.BinOp(ast.Name(pname, ast.Load()), ast.Add(), ast.Constant(start.value))
+                    st.body = [ast.fix_missing_locations(_FoldOffsets().visit(_Renamer({pname: shifted}).visit(b_))) for b_ in st.body]
+                it.args = it.args[:1]
+                it.keywords = []
+                self.log.append(f"{f.qualname}:{st.lineno} <- enumerate(start={start.value}) counted from zero")
+
     def _canonical_continues(self):
         """Inside a loop body `if c: A; continue` followed by REST is `if c: A else: REST` (when the `if` has no else and its body ends
         with the `continue`): the same iterations run the same statements, written without a jump."""
@@ -684,7 +1114,16 @@ class Normalizer:
 
     def run(self):
         self._canonical_annotated_assignments()
+        self._canonical_asserts()
         self._canonical_partials()
+        self._canonical_local_lambdas()
+        self._canonical_maps()
+        self._canonical_literal_loops()
+        self._canonical_enumerate_start()
+        self._canonical_enumerated_slices()
+        self._canonical_running_totals()
+        self._canonical_star_args()
+        self._canonical_conditional_stores()
         self._canonical_continues()
         self._canonical_chained_assignments()
         self._canonical_counting_whiles()
@@ -715,6 +1154,18 @@ class Normalizer:
                 self.helpers[q] = f
             elif self._is_generator_helper(f):
                 self.generators[q] = f
+        for q, f in self.helpers.items():
+            # a helper written with guarded returns (`if c: return A` ... `return B`) is the conditional expression `A if c else B`
+            body = effective_body(f.node.body)
+            if len(body) >= 2 and isinstance(body[-1], ast.Return) and body[-1].value is not None and \
+                    all(isinstance(b_, ast.If) and not b_.orelse and len(effective_body(b_.body)) == 1 and isinstance(effective_body(b_.body)[0], ast.Return)
+                        and effective_body(b_.body)[0].value is not None for b_ in body[:-1]):
+                expr = body[-1].value
+                for b_ in reversed(body[:-1]):
+                    expr = ast.IfExp(test=b_.test, body=effective_body(b_.body)[0].value, orelse=expr)
+                ret = ast.fix_missing_locations(ast.copy_location(ast.Return(value=expr), body[0]))
+                f.node.body = [x for x in f.node.body if x not in body] + [ret]
+                self.log.append(f"{q} <- guarded returns written as one conditional expression")
         if self.helpers or self.generators:
             for q, f in list(self.prog.functions.items()):
                 self._normalize_function(f)
@@ -1182,6 +1633,13 @@ class Normalizer:
         for p in order:
             a = bound[p]
             simple = isinstance(a, (ast.Constant, ast.Name)) or (isinstance(a, ast.Attribute) and module_constant(a))
+            if not simple and isinstance(a, ast.Attribute) and _root(a) is not None and all(isinstance(x, (ast.Attribute, ast.Name, ast.Load)) for x in ast.walk(a)):
+                # a one-expression helper that reads the parameter once: the attribute path is read once either way
+                eb = effective_body(g.node.body)
+                if len(eb) == 1 and isinstance(eb[0], ast.Return) and eb[0].value is not None and \
+                        sum(1 for x in ast.walk(eb[0].value) if isinstance(x, ast.Name) and x.id == p) == 1 and \
+                        not any(isinstance(x, (ast.Lambda, ast.ListComp, ast.GeneratorExp, ast.SetComp, ast.DictComp)) for x in ast.walk(eb[0].value)):
+                    simple = True
             if p == threaded:
                 mapping[p] = a.id
                 continue
